@@ -13,7 +13,7 @@ EXPLANATION = (
     'payload back with a MOVE primitive (no dereferencing copy).  Decides which path terms '
     'reach which primitive; rename/shutil.move treatment of links is A1/A2.')
 ASSUMPTIONS = ['A1 rename(2) moves a symlink itself', 'A2 shutil.move recreates links']
-MINIMUM = {'R18.1': 1, 'R18.2': 2, 'R18.3': 1, 'R18.4': 1, 'R18.5': 1}
+MINIMUM = {'R18.1': 1, 'R18.2': 2, 'R18.3': 1, 'R18.4': 1, 'R18.5': 1, 'R18.6': 1}
 
 
 def arg_only_under_dirname(t, is_arg):
@@ -75,6 +75,16 @@ def check(ctx):
                                                  'is resolved through a symlink' if resolves
                                                  else 'keeps trailing slashes: "link/" '
                                                       'moves the directory behind the link'))
+    # R18.6 the argument is never copied by trash-cli itself (a copy dereferences or
+    # re-creates links on its own terms); shutil.move is the only cross-device transfer
+    copies = [e for e in r.muts if e.data['kind'] in ('COPY', 'LINK', 'OPEN_WRITE')]
+    for e in copies:
+        ctx.ob('R18.6', 'trash-put does not copy the argument itself', False, node=e,
+               message='%s is applied on the put path (%s): a link argument is dereferenced or '
+                       'chosen by a link-following test instead of being moved as a link'
+                       % (e.data['prim'], short(path_role(e), 60)))
+    if not copies:
+        ctx.ob('R18.6', 'trash-put does not copy the argument itself', True, node=r.muts[0])
     # R18.4 recorded location
     quotes = []
     for w in r.writes:
